@@ -1,11 +1,14 @@
 from .. import facts
 from ..common import Report, finish
-from ..rules import c15
+from .. import flow
+from ..rules import c15, c06
 
 RULE = ("every branch-free body with 1..4 calls whose own name and exactly one resolved callee fall in an "
         "operation family must forward to the same or a compatible family (div/rem <- div_rem with the right "
         "tuple component, Montgomery operators <- *_mod), with the callee's receiver coming from the first "
-        "operand and its argument from the second")
+        "operand and its argument from the second; c15.zip: no operation over two heap-allocated operands zips their limb "
+        "iterators (stopping at the shorter operand) without an assertion comparing the two lengths — the sibling forms "
+        "zero-extend, so a truncating form disagrees with them for operands of different precision")
 
 
 def run(tier, t0):
@@ -19,6 +22,10 @@ def run(tier, t0):
         c15.run_siblings(f, rep, cfg)
         c15.run_modes(f, rep, cfg)
         c15.run_forest(f, rep, cfg)
+        eng = flow.Engine(f, flow.Policy())
+        eng.run_all(collect=False)
+        c06.run_zip(f, rep, cfg, eng, scope=lambda b, view: True, prefix="c15.zip", counter="two_boxed_operand_bodies",
+                    what="operation")
     stale = {}
     for s in rep.stale:
         stale.setdefault(s["key"], set()).add(s["config"])
@@ -28,6 +35,7 @@ def run(tier, t0):
     rep.floor("vartime_sibling_pairs", 60)
     rep.floor("operator_and_checked_forwarders", 40)
     rep.floor("operator_forests", 30)
+    rep.floor("two_boxed_operand_bodies", 150)
     return finish(rep, tier, t0,
                   explanation="forwarder family / operand-order / projection rule over %d MIR bodies in two "
                               "feature configurations; implementations (two or more family callees, branches, "
